@@ -408,4 +408,105 @@ Proof.
   apply H. cbn [length] in Hf. rewrite app_length in Hf. lia.
 Qed.
 
+(* ================================================================ Part 3: composition *)
+Notation enc := (js_encode js_flt js_fprint).
+
+Definition js_bjoin (xs : list (list Z)) : list Z :=
+  match xs with [] => [] | x :: t => x ++ concat (map (fun y => 44 :: y) t) end.
+
+Lemma js_encode_arr l : enc (JsArr _ l) = 91 :: js_bjoin (map enc l) ++ [93].
+Proof.
+  cbn [js_encode]. f_equal. f_equal. destruct l as [|x t]; [reflexivity|]. cbn [map js_bjoin app]. f_equal.
+  induction t as [|y t IH]; [reflexivity|]. cbn [map concat app]. f_equal. f_equal. exact IH.
+Qed.
+
+Lemma js_encode_obj kvs :
+  enc (JsObj _ kvs) = 123 :: js_bjoin (map (fun kv => js_quote (fst kv) ++ 58 :: enc (snd kv)) kvs) ++ [125].
+Proof.
+  cbn [js_encode]. f_equal. f_equal. destruct kvs as [|[k x] t]; [reflexivity|]. cbn [map js_bjoin app fst snd].
+  rewrite <- app_assoc. cbn [app]. f_equal. f_equal. f_equal.
+  induction t as [|[k2 y] t IH]; [reflexivity|]. cbn [map concat app fst snd].
+  rewrite <- app_assoc. cbn [app]. f_equal. f_equal. f_equal. f_equal. exact IH.
+Qed.
+
+(* values of the data model: integers up to 2^53 (other numbers are js_flt), strings and keys well-formed UTF-8 *)
+Inductive js_wf : V -> Prop :=
+| Jw_null : js_wf (JsNull _) | Jw_bool b : js_wf (JsBool _ b)
+| Jw_num z : Z.abs z <= 2 ^ 53 -> js_wf (JsNum _ z)
+| Jw_flt x : js_wf (JsFlt _ x)
+| Jw_str cps : Forall js_scalar cps -> js_wf (JsStr _ (js_utf8_of cps))
+| Jw_arr l : Forall js_wf l -> js_wf (JsArr _ l)
+| Jw_obj kvs : Forall (fun kv => (exists cps, Forall js_scalar cps /\ fst kv = js_utf8_of cps) /\ js_wf (snd kv)) kvs -> js_wf (JsObj _ kvs).
+
+Definition js_lex_val_ok (v : V) : Prop :=
+  js_wf v -> forall rest ts, js_delim rest -> js_lex_ok rest ts -> js_lex_ok (enc v ++ rest) (js_toks v ++ ts).
+
+Lemma js_delim_commas (xs : list (list Z)) rest : js_delim rest -> js_delim (concat (map (fun y => 44 :: y) xs) ++ rest).
+Proof. destruct xs; cbn; auto. Qed.
+
+Lemma js_lex_elems_tail : forall (l : list V), Forall js_lex_val_ok l -> Forall js_wf l ->
+  forall rest ts, js_delim rest -> js_lex_ok rest ts ->
+  js_lex_ok (concat (map (fun y => 44 :: y) (map enc l)) ++ rest)
+            (concat (map (fun y => JtComma _ :: y) (map js_toks l)) ++ ts).
+Proof.
+  induction l as [|y t IH]; intros Hok Hwf rest ts Hd H; [exact H|].
+  inversion Hok as [|? ? Hy Ht]; subst. inversion Hwf as [|? ? Wy Wt]; subst. cbn [map concat app]. rewrite <- !app_assoc.
+  apply js_lex_comma. apply Hy; [assumption|apply js_delim_commas; assumption|]. apply IH; assumption.
+Qed.
+
+Lemma js_lex_elems : forall (l : list V), Forall js_lex_val_ok l -> Forall js_wf l ->
+  forall rest ts, js_delim rest -> js_lex_ok rest ts ->
+  js_lex_ok (js_bjoin (map enc l) ++ rest) (js_tjoin (map js_toks l) ++ ts).
+Proof.
+  intros [|x t] Hok Hwf rest ts Hd H; [exact H|]. inversion Hok as [|? ? Hy Ht]; subst. inversion Hwf as [|? ? Wy Wt]; subst.
+  cbn [map js_bjoin js_tjoin]. rewrite <- !app_assoc.
+  apply Hy; [assumption|apply js_delim_commas; assumption|]. apply js_lex_elems_tail; assumption.
+Qed.
+
+Definition js_member_ok (kv : list Z * V) : Prop :=
+  (exists cps, Forall js_scalar cps /\ fst kv = js_utf8_of cps) /\ js_wf (snd kv).
+
+Lemma js_lex_member (kv : list Z * V) rest ts :
+  js_lex_val_ok (snd kv) -> js_member_ok kv -> js_delim rest -> js_lex_ok rest ts ->
+  js_lex_ok (js_quote (fst kv) ++ 58 :: enc (snd kv) ++ rest) (JtStr _ (fst kv) :: JtColon _ :: js_toks (snd kv) ++ ts).
+Proof.
+  intros Hok [(cps & Hs & Ek) Hwf] Hd H. rewrite Ek.
+  apply js_lex_string; [assumption|]. apply js_lex_colon. apply Hok; assumption.
+Qed.
+
+Lemma js_lex_members_tail : forall (l : list (list Z * V)), Forall (fun kv => js_lex_val_ok (snd kv)) l -> Forall js_member_ok l ->
+  forall rest ts, js_delim rest -> js_lex_ok rest ts ->
+  js_lex_ok (concat (map (fun y => 44 :: y) (map (fun kv => js_quote (fst kv) ++ 58 :: enc (snd kv)) l)) ++ rest)
+            (concat (map (fun y => JtComma _ :: y) (map (fun kv => JtStr _ (fst kv) :: JtColon _ :: js_toks (snd kv)) l)) ++ ts).
+Proof.
+  induction l as [|y t IH]; intros Hok Hwf rest ts Hd H; [exact H|].
+  inversion Hok as [|? ? Hy Ht]; subst. inversion Hwf as [|? ? Wy Wt]; subst. cbn [map concat app]. rewrite <- !app_assoc. cbn [app].
+  apply js_lex_comma.
+  apply js_lex_member; [assumption|assumption|apply js_delim_commas; assumption|]. apply IH; assumption.
+Qed.
+
+Lemma js_lex_members : forall (l : list (list Z * V)), Forall (fun kv => js_lex_val_ok (snd kv)) l -> Forall js_member_ok l ->
+  forall rest ts, js_delim rest -> js_lex_ok rest ts ->
+  js_lex_ok (js_bjoin (map (fun kv => js_quote (fst kv) ++ 58 :: enc (snd kv)) l) ++ rest)
+            (js_tjoin (map (fun kv => JtStr _ (fst kv) :: JtColon _ :: js_toks (snd kv)) l) ++ ts).
+Proof.
+  intros [|x t] Hok Hwf rest ts Hd H; [exact H|]. inversion Hok as [|? ? Hy Ht]; subst. inversion Hwf as [|? ? Wy Wt]; subst.
+  cbn [map js_bjoin js_tjoin]. rewrite <- !app_assoc. cbn [app].
+  apply js_lex_member; [assumption|assumption|apply js_delim_commas; assumption|]. apply js_lex_members_tail; assumption.
+Qed.
+
+Theorem js_lex_encode : forall v, js_lex_val_ok v.
+Proof.
+  apply js_value_rect'; unfold js_lex_val_ok.
+  - intros _ rest ts Hd H. apply js_lex_null. assumption.
+  - intros [|] _ rest ts Hd H; [apply js_lex_true|apply js_lex_false]; assumption.
+  - intros z Hw rest ts Hd H. inv Hw. apply js_lex_int; assumption.
+  - intros x _ rest ts Hd H. apply js_lex_float; assumption.
+  - intros s Hw rest ts Hd H. inv Hw. apply js_lex_string; assumption.
+  - intros l IH Hw rest ts Hd H. inv Hw. rewrite js_encode_arr. cbn [js_toks app]. rewrite <- !app_assoc. cbn [app].
+    apply js_lex_lbrack. apply js_lex_elems; [assumption|assumption|cbn; auto|]. apply js_lex_rbrack. assumption.
+  - intros kvs IH Hw rest ts Hd H. inv Hw. rewrite js_encode_obj. cbn [js_toks app]. rewrite <- !app_assoc. cbn [app].
+    apply js_lex_lbrace. apply js_lex_members; [assumption|assumption|cbn; auto|]. apply js_lex_rbrace. assumption.
+Qed.
+
 End JsRt.
